@@ -1666,3 +1666,322 @@ Proof.
   - split; try (split; [reflexivity|discriminate]). reflexivity.
   - eexists. vm_compute. reflexivity.
 Qed.
+
+(* ==================================================================================== *)
+(* 2'. Closed forms of Theorem 2 for good formats                                        *)
+(*      exp_excludes_percent           an accepted exponent picture has no percent sign   *)
+(*      scaling_factor_bounds          0 <= ScalingFactor <= length of the sub-picture    *)
+(*      format_number_terminates_good  value > 0, picture of <= 4200 bytes: never LFuel   *)
+(*      format_number_diverges_good    value <= 0 and an accepted exponent picture: LFuel *)
+(*                                     for every fuel                                     *)
+(* ==================================================================================== *)
+
+(* ---- inversion of the analyser ---- *)
+Lemma lbind_ok_inv {A B} (x : lres A) (f : A -> lres B) b :
+  lbind x f = LOk b -> exists a, x = LOk a /\ f a = LOk b.
+Proof. destruct x; simpl; try discriminate. eauto. Qed.
+
+Lemma go_slice_from_ok s i r : go_slice_from s i = LOk r -> r = sdrop (Z.to_nat i) s.
+Proof. unfold go_slice_from. destruct (_ && _); [now intros [= <-]|discriminate]. Qed.
+
+Lemma split_len s r a b :
+  split_string_at_rune s r = LOk (a, b) -> (slen a <= slen s /\ slen b <= slen s)%nat.
+Proof.
+  unfold split_string_at_rune. destruct (index_rune s r) as [pos|].
+  - intros H. apply lbind_ok_inv in H as (s2 & Hs & H). apply go_slice_from_ok in Hs. subst s2.
+    destruct (negb _); injection H as <- <-; simpl.
+    + split; [apply slen_stake_le|apply slen_sdrop_le].
+    + lia.
+  - intros [= <- <-]. simpl. lia.
+Qed.
+
+Lemma filter_len_le {A} (f : A -> bool) (l : list A) : (List.length (filter f l) <= List.length l)%nat.
+Proof. induction l as [|a l IH]; simpl; [lia|]. destruct (f a); simpl; lia. Qed.
+
+Lemma rune_count_func_bounds s f : 0 <= rune_count_func s f <= Z.of_nat (slen s).
+Proof.
+  unfold rune_count_func. split; [lia|]. apply inj_le.
+  eapply Nat.le_trans; [apply filter_len_le|].
+  unfold runes. generalize (slen s) at 1 as fuel. intros fuel. revert s.
+  induction fuel as [|fu IH]; intros s; simpl; [lia|].
+  destruct s as [|c s']; [simpl; lia|].
+  destruct (decode_rune (String c s')) as [r w] eqn:E. simpl.
+  pose proof (decode_rune_width (String c s') ltac:(discriminate)) as Hw. rewrite E in Hw.
+  simpl in Hw. specialize (IH (sdrop w (String c s'))). rewrite slen_sdrop in IH.
+  unfold slen in *. simpl String.length in *. lia.
+Qed.
+
+Lemma rune_count_func_nil f : rune_count_func "" f = 0.
+Proof. reflexivity. Qed.
+
+(* what the variables of an accepted sub-picture are made of *)
+Lemma analyse_inv parts fmt v :
+  analyse_subpicture_parts parts fmt = LOk v ->
+  sv_scaling_factor v = rune_count_func (sp_integer parts) (is_decimal_digit fmt) /\
+  sv_min_exponent_size v = rune_count_func (sp_exponent parts) (is_decimal_digit fmt) /\
+  sv_number_type v = (if scontains (df_percent fmt) (sp_picture parts) then 1
+                      else if scontains (df_per_mille fmt) (sp_picture parts) then 2 else 0).
+Proof.
+  unfold analyse_subpicture_parts. cbv zeta. intros H.
+  apply lbind_ok_inv in H as (igp & _ & H). apply lbind_ok_inv in H as (fgp & _ & H).
+  repeat match type of H with
+         | context [let '(_, _) := ?p in _] => destruct p
+         end.
+  injection H as <-. simpl. auto.
+Qed.
+
+Lemma extract_inv sub fmt parts :
+  extract_subpicture_parts sub fmt = LOk parts ->
+  sp_picture parts = sub /\
+  (slen (sp_integer parts) <= slen sub)%nat /\
+  (exists a b, sp_active parts = sslice a b sub) /\
+  (sp_exponent parts <> "" ->
+   exists pos, index_rune (sp_active parts) (df_exponent_separator fmt) = Some pos).
+Proof.
+  unfold extract_subpicture_parts. cbv zeta.
+  set (first := match index_func sub _ with Some i => i | None => 0%nat end).
+  set (last := match last_index_func sub _ true with
+               | None => slen sub
+               | Some l => let '(_, w) := decode_rune (sdrop l sub) in (l + w)%nat end).
+  destruct (last <? first)%nat; [discriminate|]. intros H.
+  apply lbind_ok_inv in H as ([mant ex] & Hme & H).
+  apply lbind_ok_inv in H as ([ip fp] & Hif & H). injection H as <-. simpl.
+  assert (Hact : (slen (sslice first last sub) <= slen sub)%nat).
+  { unfold sslice. eapply Nat.le_trans; [apply slen_stake_le|apply slen_sdrop_le]. }
+  assert (Hmant : (slen mant <= slen (sslice first last sub))%nat /\
+                  (ex <> "" -> exists pos, index_rune (sslice first last sub)
+                                                       (df_exponent_separator fmt) = Some pos)).
+  { destruct (index_rune (sslice first last sub) (df_exponent_separator fmt)) as [pos|].
+    - apply lbind_ok_inv in Hme as (e' & _ & Hme). injection Hme as <- <-.
+      split; [apply slen_stake_le|eauto].
+    - injection Hme as <- <-. split; [lia|congruence]. }
+  destruct Hmant as [Hmant Hex].
+  assert (Hip : (slen ip <= slen mant)%nat).
+  { destruct (index_rune mant (df_decimal_separator fmt)) as [pos|].
+    - apply lbind_ok_inv in Hif as (f' & _ & Hif). injection Hif as <- <-. apply slen_stake_le.
+    - injection Hif as <- <-. lia. }
+  repeat split; auto; try lia. eauto.
+Qed.
+
+Lemma process_subpicture_inv sub fmt v :
+  process_subpicture sub fmt = LOk v ->
+  exists parts, extract_subpicture_parts sub fmt = LOk parts /\
+                validate_subpicture_parts parts fmt = LOk tt /\
+                analyse_subpicture_parts parts fmt = LOk v.
+Proof.
+  unfold process_subpicture. intros H.
+  apply lbind_ok_inv in H as (parts & He & H). apply lbind_ok_inv in H as ([] & Hv & H). eauto.
+Qed.
+
+Lemma process_picture_inv pic fmt neg vars :
+  process_picture pic fmt neg = LOk vars ->
+  exists sub v0, (slen sub <= slen pic)%nat /\ process_subpicture sub fmt = LOk v0 /\
+    sv_number_type vars = sv_number_type v0 /\
+    sv_min_exponent_size vars = sv_min_exponent_size v0 /\
+    sv_scaling_factor vars = sv_scaling_factor v0.
+Proof.
+  unfold process_picture. intros H.
+  apply lbind_ok_inv in H as ([pic1 pic2] & Hs & H). apply split_len in Hs as [Hl1 Hl2].
+  destruct (seqb pic1 ""); [discriminate|].
+  apply lbind_ok_inv in H as (v1 & H1 & H). apply lbind_ok_inv in H as (v2 & H2 & H).
+  destruct neg.
+  - destruct (negb (seqb pic2 "")) eqn:E.
+    + injection H as <-. apply negb_true_iff in E. rewrite E in H2. exists pic2, v2. auto.
+    + injection H as <-. exists pic1, v1. simpl. auto.
+  - injection H as <-. exists pic1, v1. auto.
+Qed.
+
+Ltac vstep H :=
+  match type of H with
+  | (if ?c then _ else _) = LOk _ =>
+      let E := fresh "E" in
+      destruct c eqn:E;
+      try discriminate H; try (destruct (contains_rune _ _); discriminate H)
+  | (match index_func ?s ?f with Some _ => _ | None => _ end) = LOk _ =>
+      destruct (index_func s f); try discriminate H
+  | lbind _ _ = LOk _ => apply lbind_ok_inv in H as (? & _ & H)
+  end.
+
+(* an accepted sub-picture does not have both an exponent separator and a percent or
+   per-mille sign *)
+Lemma validate_exclusive parts fmt :
+  validate_subpicture_parts parts fmt = LOk tt ->
+  (0 <? scount (sp_picture parts) (encode_rune (df_exponent_separator fmt))) &&
+  ((0 <? scount (sp_picture parts) (df_percent fmt)) ||
+   (0 <? scount (sp_picture parts) (df_per_mille fmt))) = false.
+Proof.
+  unfold validate_subpicture_parts. cbv zeta. intros H.
+  repeat vstep H. reflexivity.
+Qed.
+
+(* ---- substring facts ---- *)
+Lemma sindex_from_exists sub : forall s off i,
+  (i <= slen s)%nat -> sprefix sub (sdrop i s) = true ->
+  exists j, sindex_from sub s off = Some j.
+Proof.
+  induction s as [|c s IH]; intros off i Hi Hp.
+  - simpl in Hi. assert (i = 0%nat) by lia. subst i. simpl in *. rewrite Hp. eauto.
+  - cbn [sindex_from]. destruct (sprefix sub (String c s)) eqn:E; [eauto|].
+    destruct i as [|i]; [simpl in Hp; congruence|].
+    simpl in Hp, Hi. apply (IH (S off) i); [lia|exact Hp].
+Qed.
+
+Lemma sindex_from_prefix sub : forall s off j,
+  sindex_from sub s off = Some j ->
+  (off <= j)%nat /\ (j - off <= slen s)%nat /\ sprefix sub (sdrop (j - off) s) = true.
+Proof.
+  induction s as [|c s IH]; intros off j; cbn [sindex_from].
+  - destruct (sprefix sub "") eqn:E; [|discriminate]. intros [= <-].
+    rewrite Nat.sub_diag. simpl. auto with arith.
+  - destruct (sprefix sub (String c s)) eqn:E.
+    + intros [= <-]. rewrite Nat.sub_diag. simpl. split; [lia|split; [lia|exact E]].
+    + intros H. apply IH in H as (H1 & H2 & H3).
+      replace (j - off)%nat with (S (j - S off)) by lia. simpl. split; [lia|split; [lia|exact H3]].
+Qed.
+
+Lemma sprefix_stake p : forall n t, sprefix p (stake n t) = true -> sprefix p t = true.
+Proof.
+  induction p as [|x p IH]; intros n t; [reflexivity|].
+  destruct n as [|n]; destruct t as [|y t]; simpl; try discriminate.
+  intros H. apply andb_true_iff in H as [H1 H2]. rewrite H1. simpl. eauto.
+Qed.
+
+Lemma sdrop_stake i : forall n t, sdrop i (stake n t) = stake (n - i) (sdrop i t).
+Proof.
+  induction i as [|i IH]; intros n t; simpl.
+  - now rewrite Nat.sub_0_r.
+  - destruct n as [|n]; destruct t as [|y t]; simpl; auto.
+    now destruct (n - i)%nat.
+Qed.
+
+Lemma sindex_sslice sub a b s i :
+  sindex sub (sslice a b s) = Some i -> exists j, sindex sub s = Some j.
+Proof.
+  unfold sindex, sslice. intros H. apply sindex_from_prefix in H as (_ & Hle & Hp).
+  rewrite Nat.sub_0_r in *. rewrite sdrop_stake in Hp. apply sprefix_stake in Hp.
+  rewrite sdrop_sdrop in Hp.
+  destruct (le_lt_dec (a + i) (slen s)) as [Hl|Hl].
+  - now apply (sindex_from_exists sub s 0 (a + i)%nat).
+  - (* beyond the end: sdrop gives "", so sub = "" and it is found at 0 *)
+    assert (Hd : sdrop (a + i) s = "").
+    { pose proof (slen_sdrop (a + i) s) as Hs. destruct (sdrop (a + i) s); [reflexivity|].
+      exfalso. unfold slen in *. cbn [String.length] in Hs. lia. }
+    rewrite Hd in Hp. destruct sub as [|x sub]; [|discriminate].
+    apply (sindex_from_exists "" s 0 0%nat); [lia|reflexivity].
+Qed.
+
+Lemma count_from_nonneg sub : forall fuel s, 0 <= count_from fuel sub s.
+Proof.
+  induction fuel as [|f IH]; intros s; cbn [count_from]; [lia|].
+  destruct (sindex sub s); [specialize (IH (sdrop (n + slen sub) s))|]; lia.
+Qed.
+
+Lemma scount_pos s sub j : sindex sub s = Some j -> 1 <= scount s sub.
+Proof.
+  intros H. unfold scount. destruct sub as [|x sub]; [lia|].
+  cbn [count_from]. rewrite H.
+  pose proof (count_from_nonneg (String x sub) (slen s) (sdrop (j + slen (String x sub)) s)). lia.
+Qed.
+
+Lemma scontains_scount sub s : scontains sub s = true -> 1 <= scount s sub.
+Proof.
+  unfold scontains. destruct (sindex sub s) as [j|] eqn:E; [|discriminate].
+  intros _. eapply scount_pos; eauto.
+Qed.
+
+Lemma index_rune_sindex s r pos :
+  good_rune r -> index_rune s r = Some pos -> sindex (encode_rune r) s = Some pos.
+Proof.
+  intros [Hv Hne] H. unfold index_rune in H.
+  destruct ((0 <=? r) && (r <? 128)) eqn:E.
+  - unfold encode_rune. rewrite Hv. replace (r <? 128) with true by lia. exact H.
+  - replace (r =? RuneError) with false in H by lia. rewrite Hv in H. exact H.
+Qed.
+
+(* in an accepted sub-picture an exponent part excludes percent and per-mille *)
+Lemma exp_excludes_percent sub fmt v :
+  good_format fmt -> process_subpicture sub fmt = LOk v ->
+  sv_min_exponent_size v <> 0 -> sv_number_type v = 0.
+Proof.
+  intros Hg H Hexp. apply process_subpicture_inv in H as (parts & He & Hv & Ha).
+  apply analyse_inv in Ha as (_ & Hmin & Hty).
+  apply extract_inv in He as (Hpic & _ & (a & b & Hact) & Hex).
+  apply validate_exclusive in Hv.
+  assert (Hne : sp_exponent parts <> "").
+  { intros Hc. rewrite Hc, rune_count_func_nil in Hmin. congruence. }
+  destruct (Hex Hne) as (pos & Hpos).
+  apply (index_rune_sindex _ _ _ (gf_exp fmt Hg)) in Hpos.
+  rewrite Hact, <- Hpic in Hpos. apply sindex_sslice in Hpos as (j & Hj).
+  apply scount_pos in Hj.
+  replace (0 <? scount (sp_picture parts) (encode_rune (df_exponent_separator fmt)))
+    with true in Hv by lia.
+  simpl in Hv. apply orb_false_iff in Hv as [Hp Hm].
+  rewrite Hty.
+  destruct (scontains (df_percent fmt) (sp_picture parts)) eqn:E1;
+    [apply scontains_scount in E1; lia|].
+  destruct (scontains (df_per_mille fmt) (sp_picture parts)) eqn:E2;
+    [apply scontains_scount in E2; lia|].
+  reflexivity.
+Qed.
+
+Lemma scaling_factor_bounds sub fmt v :
+  process_subpicture sub fmt = LOk v -> 0 <= sv_scaling_factor v <= Z.of_nat (slen sub).
+Proof.
+  intros H. apply process_subpicture_inv in H as (parts & He & _ & Ha).
+  apply analyse_inv in Ha as (Hsf & _ & _).
+  apply extract_inv in He as (_ & Hlen & _ & _).
+  rewrite Hsf. pose proof (rune_count_func_bounds (sp_integer parts) (is_decimal_digit fmt)). lia.
+Qed.
+
+(* THEOREM 2, closed form: for a format with valid separators and digits, FormatNumber
+   terminates (fuel 701 is enough) for EVERY finite value > 0 and EVERY picture of at most
+   4200 bytes *)
+Theorem format_number_terminates_good fmt_fixed fuel value picture fmt :
+  good_format fmt -> (701 <= fuel)%nat -> posfin value -> (slen picture <= 4200)%nat ->
+  format_number fmt_fixed fuel value picture fmt <> LFuel.
+Proof.
+  intros Hg Hfuel Hv Hlen. apply format_number_terminates_pos; auto.
+  intros vars Hpp Hexp.
+  apply process_picture_inv in Hpp as (sub & v0 & Hsub & Hps & Hty & Hmin & Hsf).
+  rewrite Hty, Hsf. rewrite Hmin in Hexp. split.
+  - eapply exp_excludes_percent; eauto.
+  - pose proof (scaling_factor_bounds sub fmt v0 Hps). lia.
+Qed.
+Print Assumptions format_number_terminates_good.
+
+Definition minpos_at (n : Z) : bool := fltb fzero (go_pow10 (n - 1)).
+Lemma minpos_check : all_upto minpos_at pow_ok_bound = true.
+Proof. vm_compute. reflexivity. Qed.
+Lemma minpos_small n : 0 <= n <= 4200 -> fltb fzero (go_pow10 (n - 1)) = true.
+Proof.
+  intros Hn. apply (all_upto_spec minpos_at pow_ok_bound minpos_check n).
+  unfold pow_ok_bound. rewrite Z2Nat.id by lia. lia.
+Qed.
+
+(* THE EXACT HANG CONDITION: value <= 0 (+0, -0 or any negative double) and a picture that
+   the analyser accepts with at least one exponent digit.  Then FormatNumber = LFuel for
+   every fuel. *)
+Theorem format_number_diverges_good fmt_fixed fuel value picture fmt vars :
+  good_format fmt -> (slen picture <= 4200)%nat ->
+  (exists s, value = S754_zero s) \/
+  (exists m e, value = S754_finite true m e /\ SpecFloat.bounded 53 1024 m e = true) ->
+  process_picture picture fmt (fltb value fzero) = LOk vars ->
+  sv_min_exponent_size vars <> 0 ->
+  format_number fmt_fixed fuel value picture fmt = LFuel.
+Proof.
+  intros Hg Hlen Hv Hpp Hexp.
+  pose proof Hpp as Hinv.
+  apply process_picture_inv in Hinv as (sub & v0 & Hsub & Hps & Hty & Hmin & Hsf).
+  apply (format_number_diverges_nonpos fmt_fixed fuel value picture fmt vars); auto.
+  - destruct Hv as [Hz|Hn]; [now left|right; now right].
+  - destruct Hv as [[s ->]|(m & e & -> & _)]; reflexivity.
+  - intros ->. unfold process_picture, split_string_at_rune in Hpp.
+    destruct (index_rune "" (df_pattern_separator fmt)) eqn:E.
+    + apply index_rune_slice_ok in E as (s2 & _ & Hlt & _);
+        [simpl in Hlt; lia|apply (gf_pat fmt Hg)].
+    + simpl in Hpp. discriminate.
+  - rewrite Hty. rewrite Hmin in Hexp. eapply exp_excludes_percent; eauto.
+  - rewrite Hsf. apply minpos_small.
+    pose proof (scaling_factor_bounds sub fmt v0 Hps). lia.
+Qed.
+Print Assumptions format_number_diverges_good.
